@@ -4,7 +4,8 @@ specs/FuncAlgebra.tla enumerates expression trees over gemseo's function algebra
 points and computes, in exact dyadic arithmetic, the value and the Jacobian of every tree and of every
 proper subtree (the observations that evaluating the tree must leave unchanged).  TLC checks the module's
 own properties (shapes, five-point-stencil exactness of the Jacobians of polynomial trees, quotient rule
-vs product rule, Taylor contact, aggregation relations, NoOperandMutation) and prints every instance.
+vs product rule, Taylor contact, aggregation relations incl. AggVectorScale (a vector scale, one factor per selected
+constraint, is the aggregation of the row-scaled constraints), NoOperandMutation) and prints every instance.
 
 Binding (spec -> code): every printed instance is rebuilt with real gemseo objects (harness/checks/
 c10_build.py only *transports* the tree: operator name -> gemseo call) and `evaluate` / `jac` are compared
@@ -23,7 +24,7 @@ from pathlib import Path
 from ..core import Check, MachineryError, TLCResult, main, run_tlc
 
 INVS = ["ShapeOK", "ObsShapeOK", "StencilExact", "QuotientConsistent", "TaylorContact", "AggPosVsSq",
-        "AggMaxIsMax", "Normalised"]
+        "AggMaxIsMax", "AggVectorScale", "Normalised"]
 
 
 def cfg(*, full, maxd, mod, seed, nparts, part, wide, stencil, mod3=None):
@@ -52,7 +53,7 @@ def _part(args):
         # the JVM died without a TLC diagnostic (killed from outside / out of memory): try once more
     out = {"distinct": r.distinct, "generated": r.generated, "depth": r.depth, "wall_tlc": round(time.time() - t0, 2),
            "error": None, "violated": r.violated, "viol": [], "n_cases": 0, "n_rejects": 0, "n_trees": 0,
-           "samples": [], "ops": {}, "n_diag": 0}
+           "samples": [], "ops": {}, "n_diag": 0, "vec": {}}
     if r.error or (r.rc != 0 and not r.violated):
         out["error"] = r.error or r.out[-2000:]
         return out
@@ -75,6 +76,12 @@ def _part(args):
             out["n_cases"] += 1
             trees.add(tree)
             out["ops"][tree[0]] = out["ops"].get(tree[0], 0) + 1
+            if tree[0] in ("aggmax", "aggsq", "aggpos") and tree[2][0] == 0:
+                # vector scale: one factor per selected constraint; counted by whether the number of selected
+                # constraints equals the number of inputs (where a mis-broadcast is silent) or not
+                m = len(tree[2]) - 2 - tree[2][1]
+                key = f"{tree[0]}:{'one' if m == 1 else 'm_eq_n' if m == len(pt) else 'm_ne_n'}"
+                out["vec"][key] = out["vec"].get(key, 0) + 1
             if len(out["samples"]) < 2 and len(tree[1]) and out["n_cases"] % 97 == 0:
                 out["samples"].append({"tree": c10_build.show(tree), "point": list(pt),
                                        "spec_value": c10_build.vec(ev).tolist(),
@@ -121,11 +128,13 @@ def run(ck: Check):
         for p in range(nparts):
             c = cfg(seed=ck.seed, nparts=nparts, part=p, stencil=False, **plan)
             jobs.append((str(ck.work / f"plan{k}-part{p}"), c, timeout, True))
+    nproc = int(os.environ.get("VERIF_C10_NPROC") or nproc)  # fewer side-by-side runs on a shared machine
     ctx = mp.get_context("fork")
     with cf.ProcessPoolExecutor(max_workers=nproc, mp_context=ctx) as ex:
         results = list(ex.map(_part, jobs))
     n_cases = n_rej = n_trees = n_diag = n_stencil = 0
     ops: dict[str, int] = {}
+    vec: dict[str, int] = {}
     for p, o in enumerate(results):
         ck.tlc_runs.append({"module": "FuncAlgebra", "run": Path(jobs[p][0]).name, "distinct": o["distinct"],
                             "generated": o["generated"], "depth": o["depth"], "wall_s": o["wall_tlc"],
@@ -146,6 +155,8 @@ def run(ck: Check):
         n_diag += o["n_diag"]
         for k, v in o["ops"].items():
             ops[k] = ops.get(k, 0) + v
+        for k, v in o["vec"].items():
+            vec[k] = vec.get(k, 0) + v
         for s in o["samples"]:
             ck.sample(s)
         for clause, sig, detail, count in o["viol"]:
@@ -157,9 +168,13 @@ def run(ck: Check):
     missing = sorted(set(c10_build.ALL_OPS) - set(ops))
     if missing:
         raise MachineryError(f"vacuity: operators never at the root of a replayed instance: {missing}")
+    missing = sorted({f"{o}:{c}" for o in ("aggmax", "aggsq", "aggpos") for c in ("one", "m_eq_n", "m_ne_n")} - set(vec))
+    if missing:
+        raise MachineryError(f"vacuity: aggregations with a vector scale never replayed: {missing}")
     ck.traces = n_cases + n_rej
     ck.extra.update({"stencil_checked_instances": n_stencil, "trees": n_trees, "instances": n_cases, "reject_instances": n_rej,
                      "instances_per_root_operator": dict(sorted(ops.items())), "diagnosed_instances": n_diag,
+                     "vector_scale_aggregation_instances": dict(sorted(vec.items())),
                      "plans": [dict(pl, nparts=n) for pl, n in plans]})
     ck.exhaustive = True  # every instance of the bounded model printed by TLC is replayed
     ck.assumptions += [
@@ -167,7 +182,9 @@ def run(ck: Check):
         "KS / IKS / lower-/upper-bound KS aggregations (exponentials) are not modelled and not claimed",
         "ill-typed trees (array operand of another dimension than the function, operands with different input "
         "dimensions) are not generated; function-function operations mixing expects_normalized_inputs are Reject instances",
-        "aggregate_max is compared only where the maximum is attained once (differentiable points)",
+        "aggregate_max is compared only where the maximum of the scaled constraints is attained once (differentiable points)",
+        "aggregations: `scale` is a number (1, 2) or a vector of positive integers with one factor per SELECTED constraint "
+        "(gemseo applies it after `indices`); negative factors and vectors of another length are not enumerated",
         "convex linearisation: gemseo's own definition (reciprocal in the step x - xhat), points with a step +-2^j",
         "second-order Taylor polynomial: symmetric Hessian approximations only",
         "functions with a sparse Jacobian (MDOLinearFunction on scipy CSR coefficients: leaves Lc, Mc) are enumerated only "
